@@ -246,7 +246,12 @@ static void CO_LssActivateBitTiming_SwitchDelay (void *arg)
         CONmtSetMode(&lss->Node->Nmt, CO_PREOP);
         COTmrDelete(&lss->Node->Tmr, lss->Tmr);
         lss->Tmr  = -1;
-        lss->Step = 0;
+        if (lss->Step == CO_LSS_ACT_DELAY_2) {
+            /* a sequence, which has started during the second delay,
+             * keeps its progress
+             */
+            lss->Step = CO_LSS_SEL_VENDOR;
+        }
     }
 }
 
@@ -256,6 +261,10 @@ int16_t COLssActivateBitTiming(CO_LSS *lss, CO_IF_FRM *frm)
     uint16_t  delay;
     uint32_t  ticks;
 
+    if (lss->Tmr >= 0) {
+        /* a bit timing switch is in progress */
+        return -1;
+    }
     delay = CO_GET_WORD(frm, 1);
 
     CONmtSetMode(&lss->Node->Nmt, CO_INIT);
